@@ -245,9 +245,14 @@ def threads_case(c):
     """["threads", [[[packet, expected bytes] ...] per thread], seconds]: every thread encodes its own packets
     in a tight loop; the first encoding that differs from the expected bytes (computed by the harness's
     independent encoder) is returned.  A search: finding nothing proves nothing."""
+    import signal
     import sys
     import threading
     import time
+    # this case runs for c[2] seconds of wall time on several threads: lift the per-case CPU-time limit of
+    # implutil.run_cases accordingly (it is re-armed for the next case)
+    signal.setitimer(signal.ITIMER_PROF, 10 * c[2] + 60)
+    signal.alarm(int(20 * c[2]) + 300)
     old = sys.getswitchinterval()
     sys.setswitchinterval(1e-6)
     stop = time.time() + c[2]
